@@ -74,14 +74,17 @@ class FunctionCall(TypedExpression):
             if child.type == "comment"
             and function_node.end_byte <= child.start_byte < argument_node.start_byte
         ]
-        inline_comment_nodes = [
-            child
-            for child in comment_nodes
-            if child.start_byte > function_node.end_byte
-            and point_row(child.start_point) == point_row(function_node.end_point)
-        ]
+        # Inline comments are the leading run of the comments: one that follows
+        # a comment which is not inline stays behind it.
+        inline_comment_nodes = []
+        for child in sorted(comment_nodes, key=lambda child: child.start_byte):
+            if child.start_byte > function_node.end_byte and point_row(
+                child.start_point
+            ) == point_row(function_node.end_point):
+                inline_comment_nodes.append(child)
+            else:
+                break
         if inline_comment_nodes:
-            inline_comment_nodes.sort(key=lambda child: child.start_byte)
             for comment_node in inline_comment_nodes:
                 comment_expr = Comment.from_cst(comment_node)
                 comment_expr.inline = True
